@@ -263,7 +263,9 @@ class MultiMatcher(mcore.Matcher):
         return skipped
 
     def max_quality(self):
-        return max(m.max_quality() for m in self.matchers[self.current:])
+        # (nothing is left to score once the last sub-matcher has run out)
+        rest = self.matchers[self.current:]
+        return max(m.max_quality() for m in rest) if rest else 0
 
     def block_quality(self):
         return self.matchers[self.current].block_quality()
